@@ -27,6 +27,12 @@ def run_check(prop, tier, out=print):
             mod.check(run)
         except AnalysisIncomplete as e:
             run.incomplete("engine/anchor", "anchor", "-", str(e))
+        if tier == "thorough" and not os.environ.get("UXSA_NO_EVIDENCE"):
+            from .mutants import validate
+
+            cv = validate(prop)
+            cv.pop("details", None)
+            run.extra["checker_validation"] = cv
         return run.finish(out)
     except AnalysisIncomplete as e:
         out(f"ANALYSIS-INCOMPLETE property={prop} {e}")
@@ -46,6 +52,8 @@ def main(argv=None):
     r = sub.add_parser("replay")
     r.add_argument("path")
     sub.add_parser("selfcheck")
+    mu = sub.add_parser("mutants")
+    mu.add_argument("prop", nargs="?")
     a = sub.add_parser("all")
     a.add_argument("--tier", default="quick")
     args = ap.parse_args(argv)
@@ -69,6 +77,10 @@ def main(argv=None):
                 continue
             worst = max(worst, run_check(p, args.tier))
         return worst
+    if args.cmd == "mutants":
+        from .mutants import main as mmain
+
+        return mmain([args.prop.upper()] if args.prop else [])
     if args.cmd == "selfcheck":
         from .selfcheck import selfcheck
 
